@@ -37,3 +37,20 @@ Theorem C02_contribution_requires_local_quiescence : forall c fuel s s',
   reached (run fuel c PReduceCounts s) s' -> pend s = 0%Z /\ sbb s = 0%Z.
 Proof. exact contribution_requires_local_quiescence. Qed.
 Print Assumptions C02_contribution_requires_local_quiescence.
+
+
+(* barrier() returns only with every pre-barrier callback run, every buffer put on the wire and every posted send
+   complete - for every program, schedule and execution length (same hypotheses as C03_no_assertion_fails) *)
+From Ygm Require Import RankNoErr.
+Theorem C02_barrier_returns_flushed : forall c nr,
+  (0 <= c_cap c)%Z ->
+  (forall d, rng nr d -> rng nr (next_hop c d)) ->
+  Forall (rng nr) (locals_of c) ->
+  Forall (rng nr) (Bcast.remote_partners_spec (c_n c) (c_p c) (c_me c)) ->
+  (forall u, forallb (hact_ok nr) (c_hprog c u) = true) ->
+  (forall i, forallb (dests_ok nr) (c_cbprog c i) = true) ->
+  forall fuel s s',
+  inprq s = false -> DI0 c nr s -> run fuel c PBarrier s = Ok s' ->
+  cbs s' = [] /\ dq s' = [] /\ sendq s' = [] /\ sbb s' = 0%Z /\ pend s' = 0%Z.
+Proof. exact barrier_returns_flushed. Qed.
+Print Assumptions C02_barrier_returns_flushed.
